@@ -284,7 +284,7 @@ def event_model(ctx, rule, prop):
     ev = ctx.repo.method("param.parameters.Event", "__set__")
     problems = []
     n = 0
-    for mode, outcome in itertools.product(["set-reset", "set", "reset"], ["ok", "refused", "watcher-raises"]):
+    for mode, outcome, value in itertools.product(["set-reset", "set", "reset"], ["ok", "refused", "watcher-raises"], [True, False]):
         log = []
 
         def hook(fn, args, kwargs, outcome=outcome, log=log):
@@ -297,23 +297,25 @@ def event_model(ctx, rule, prop):
                 log.append("reset")
                 return None
             return NotImplemented
-        me = Obj("event_parameter", _mode=mode, name="e")
+        me = Obj("event_parameter", _mode=mode, name="e", _autotrigger_value=True, _autotrigger_reset_value=False)
         it = Interp(ctx.hier, dyn="param.parameters.Event", inline=lambda m: False, call_hook=hook)
         try:
-            outs = it.run_all(ev, {ev.params[0]: me, ev.params[1]: Obj("instance"), ev.params[2]: True})
+            outs = it.run_all(ev, {ev.params[0]: me, ev.params[1]: Obj("instance"), ev.params[2]: value})
         except Unsupported as e:
             raise AnalysisError("absint cannot interpret Event.__set__: %s -- %s cannot decide" % (e, rule))
         n += 1
         if len(outs) != 1 or outs[0].imprecise:
             raise AnalysisError("absint imprecise on Event.__set__ -- %s cannot decide" % rule)
         want = {"set-reset": ["assign", "reset"], "set": ["assign"], "reset": ["reset"]}[mode]
-        desc = "Event in mode %r, the assignment %s" % (mode, {"ok": "succeeds", "refused": "is refused", "watcher-raises": "is stored and a watcher raises"}[outcome])
+        desc = "Event in mode %r, the assignment of %s %s" % (mode, value, {"ok": "succeeds", "refused": "is refused", "watcher-raises": "is stored and a watcher raises"}[outcome])
         if log != want:
             why = ""
             if mode == "set" and "reset" in log:
                 why = ": while update()/trigger() deliver the Event it is held in mode 'set'; an assignment to it that fails (e.g. a refused one made by one of its own watchers) must not flip it to False under the watchers still to come"
-            elif mode == "set-reset" and "reset" not in log:
+            elif mode == "set-reset" and "reset" not in log and value is True:
                 why = ": the Event stays True, its next firing is an unchanged assignment that nobody is told about"
+            elif "assign" not in log and "assign" in want:
+                why = ": `obj.e = False` is an assignment like any other -- a set-watcher (onlychanged=False) is owed its event, and a callback that switches the Event off while it is being delivered changes its value"
             problems.append("%s: does %s, specification %s%s" % (desc, log, want, why))
         elif (outcome != "ok" and mode != "reset") != (outs[0].kind == "raise"):
             problems.append("%s: outcome %s" % (desc, outs[0].kind))
@@ -324,7 +326,7 @@ def event_model(ctx, rule, prop):
         ctx.fail(rule, ev, ev.node, "Event model: %s (%d disagreeing case(s))" % (rel[0], len(rel)), key=ev.qualname + "::event-model",
                  input="a watcher of Event e makes a refused assignment to e while p.param.trigger('e') delivers it -> later watchers see e == False")
     else:
-        ctx.ok(rule, ev, ev.node, "Event model, 9 abstract cases (mode x assignment succeeds / is refused / a watcher raises): assigned and reset exactly as the mode says")
+        ctx.ok(rule, ev, ev.node, "Event model, %d abstract cases (mode x assignment succeeds / is refused / a watcher raises x True / False assigned): assigned and reset exactly as the mode says" % n)
 
 
 def restorer_model(ctx, rule):
